@@ -16,7 +16,7 @@ BOUNDS = {
     "quick": "all octet strings of length 0..5 (every octet a free 8-bit variable) x every split into <=3 chunks (empty chunks included) for the pure-Python validator; length 0..4 for decode(); NVX wrapper: length 0..4 x all <=3-chunk splits; inductive step: 9 reference states x 1 free octet (covers the verdict for strings of any length)",
     "thorough": "length 0..8 x every split into <=3 chunks, 0..5 x every split into <=4 chunks; NVX wrapper 0..6; inductive step as quick",
 }
-EXPECT_COVERS = ["py:accept-complete", "py:accept-incomplete", "py:reject", "nvx:accept-complete", "nvx:accept-incomplete",
+EXPECT_COVERS = ["py:long-ascii-run", "nvx:long-ascii-run", "py:accept-complete", "py:accept-incomplete", "py:reject", "nvx:accept-complete", "nvx:accept-incomplete",
                  "nvx:reject", "induct:step", "decode:accept", "decode:reject"]
 BUDGET = {"quick": dict(wall_s=200), "thorough": dict(wall_s=1500)}
 
@@ -202,6 +202,31 @@ def bounded(sx, impl, n, sizes):
     return res
 
 
+def filled(sx, impl, pre, fill, post, cut):
+    """long inputs: `pre` free octets, then `fill` ASCII octets, then `post` free octets, chunked so that the ASCII run is a chunk of its own,
+    is glued to what precedes it, or to what follows (fast paths for long / all-ASCII chunks must respect the state carried over)"""
+    data = sx.bytes("p", pre) + b"a" * fill + sx.bytes("q", post)
+    sizes = {"own": [pre, fill, post], "left": [pre + fill, post], "right": [pre, fill + post], "whole": [pre + fill + post]}[cut]
+    chunks = _chunks(data, sizes)
+    v = _mk_validator(sx, impl)
+    v.reset()
+    ref = ref_run(sx, chunks)
+    res = []
+    for j, ch in enumerate(chunks):
+        r = v.validate(ch)
+        rv, re_, rc, rt = ref[j]
+        info = dict(impl=impl, pre=pre, fill=fill, post=post, cut=cut, chunk=j)
+        sx.check(sx.Iff(r[0], rv), "valid==rfc3629", info=info)
+        sx.check(sx.Iff(r[1], re_), "ends-on-code-point==rfc3629", info=info)
+        sx.check(r[2] == rc, "index-in-chunk==first-offending-octet", info=info)
+        sx.check(r[3] == rt, "total-index", info=info)
+        res.append([bool(r[0]), bool(r[1])])
+        if not res[-1][0]:
+            break
+    sx.cover(impl + ":long-ascii-run")
+    return res
+
+
 def induct(sx, rs):
     """one inductive step: from the validator state reached by the canonical prefix of reference
     state rs, ANY next octet leads to the state of the reference successor (bisimulation), with
@@ -287,6 +312,14 @@ def units(tier):
                 seen.add(key)
                 U.append(("%s/n%d/%s" % (impl, n, "-".join(map(str, sizes))), "bounded", dict(impl=impl, n=n, sizes=sizes),
                           dict(weight=n)))
+    fills = [16, 32, 33, 64, 128] if tier == "quick" else [8, 15, 16, 17, 31, 32, 33, 63, 64, 65, 127, 128, 129, 256, 300]
+    for impl in ("py", "nvx"):
+        for fill in fills:
+            for pre, post in ((1, 1), (2, 0)) if tier == "quick" else ((1, 1), (2, 0), (0, 2), (2, 2), (3, 1)):
+                for cut in ("own", "left", "right"):
+                    if (cut == "own" and post == 0) or (pre == 0 and cut != "right"):
+                        continue
+                    U.append(("%s/fill%d/%d-%d/%s" % (impl, fill, pre, post, cut), "filled", dict(impl=impl, pre=pre, fill=fill, post=post, cut=cut), dict(weight=2)))
     for rs in range(8):
         U.append(("induct/%d" % rs, "induct", dict(rs=rs)))
     for n in dec:
